@@ -10,6 +10,7 @@ Oracle (no model): the session is then probed through BASIC direct statements an
 independent Python reading of the property (everything initial after a reset; exactly the COMMON variables
 with their printed values after CHAIN).
 """
+import json
 import os
 import re
 
@@ -776,6 +777,8 @@ class C23(core.Check):
                       decls=[['S', 0], ['R$', 1], ['N%', 1], ['X#', 0], ['NOSUCH%', 0], ['U$', 0]]),
                  scalars=['S$', 'T$', 'X#', 'U$', 'I8%'], arrays=[['N%', [2, 1]], ['R$', [2]]],
                  deftype={'S': '$'}, base=1),
+            # D23d: the COMMON variables fit exactly under the second program
+            json.load(open(os.path.join(core.VERIF, 'corpus', 'C23-exactfit.json'))),
             prog([[10, 'A%=1:B$="q"+"r"'], [20, 'STOP']], ['RUN'], {'cmd': 'RUN', 'text': 'RUN', 'variant': 'plain'},
                  scalars=['A%', 'B$']),
             prog([[10, 'A%=1:B$="q"+"r":GOSUB 30'], [20, 'STOP'], [30, 'NEW'], [40, 'STOP']], [],
